@@ -45,6 +45,52 @@ theorem container_is_byte_queue (ds : List Bytes) (ops : List Op) :
   rw [abs_new] at b o
   exact ⟨o, b⟩
 
+/-! ### Several containers: operations that take another container as their argument -/
+
+open PB.ByteQueue (WOp)
+
+/-- `AppendContainer(other)` appends ALL compartments of `other`, whatever `other.offset` is. With `other` in any
+    state its history can leave it in (the invariant: consumed slots are empty) the receiver gains exactly the
+    bytes `other` still holds — also for `c.AppendContainer(c)`. -/
+theorem appendContainer_any_state (c d : C) (hc : Inv c) (hd : Inv d) :
+    Inv (appendContainer c d) ∧ abs (appendContainer c d) = abs c ++ abs d ∧
+    Inv (appendContainerAsBlock c d) ∧ abs (appendContainerAsBlock c d) = abs c ++ pack64 (abs d).length ++ abs d := by
+  obtain ⟨a, b⟩ := appendContainer_spec c d hc hd
+  obtain ⟨a', b'⟩ := appendContainerAsBlock_spec c d hc hd
+  exact ⟨a, b, a', b'⟩
+
+/-- … and this really depends on consumed slots being emptied (`c.compartments[i] = nil` in `skip` and
+    `WriteToSlice`): an argument whose consumed slot still holds its old bytes gives them back. -/
+theorem appendContainer_needs_emptied_slots :
+    ∃ c d : C, Inv c ∧ ¬ Inv d ∧ d.offset ≤ d.comps.length ∧ abs (appendContainer c d) ≠ abs c ++ abs d :=
+  ⟨⟨[[120]], 0⟩, ⟨[[97, 98], [99]], 1⟩, by simp [PB.Container.Inv], by simp [PB.Container.Inv], by decide, by decide⟩
+
+/-- One operation on a world of containers (a single-container call on any of them, or an append of one to
+    another — or to itself) keeps every invariant and agrees with the same operation on a world of byte queues. -/
+theorem world_refines_step (w : List C) (h : WInv w) (op : WOp) :
+    WInv (wstep w op).1 ∧ (wstep w op).1.map abs = (PB.ByteQueue.wstep (w.map abs) op).1 ∧
+    (wstep w op).2 = (PB.ByteQueue.wstep (w.map abs) op).2 := wstep_refines w h op
+
+theorem world_refines_run (ops : List WOp) : ∀ (w : List C), WInv w →
+    WInv (wrun w ops).1 ∧ (wrun w ops).1.map abs = (PB.ByteQueue.wrun (w.map abs) ops).1 ∧
+    (wrun w ops).2 = (PB.ByteQueue.wrun (w.map abs) ops).2 := by
+  induction ops with
+  | nil => intro w h; exact ⟨h, rfl, rfl⟩
+  | cons op ops ih =>
+    intro w h
+    obtain ⟨a, b, o⟩ := world_refines_step w h op
+    obtain ⟨a', b', o'⟩ := ih (wstep w op).1 a
+    simp only [wrun, PB.ByteQueue.wrun]
+    rw [b] at b' o'
+    exact ⟨a', b', by rw [o, o']⟩
+
+/-- Any finite history of any number of containers, with containers handed to each other in whatever state
+    they are, yields the results of the same history on plain byte queues. -/
+theorem containers_are_byte_queues (ops : List WOp) :
+    (wrun [] ops).2 = (PB.ByteQueue.wrun [] ops).2 ∧ (wrun [] ops).1.map abs = (PB.ByteQueue.wrun [] ops).1 := by
+  obtain ⟨_, b, o⟩ := world_refines_run ops [] (by intro c hc; simp at hc)
+  exact ⟨o, b⟩
+
 /-! ### Corollaries named after the clauses of the statement (about the spec, hence about the container) -/
 
 /-- Every byte comes out exactly once, in order and unmodified (byte-queue side): appending any slices and
@@ -253,5 +299,11 @@ set_option maxRecDepth 8000 in
 example : PB.Base64.jsonDec [34, 65, 81, 61, 68, 34] = .err := by decide
 set_option maxRecDepth 8000 in
 example : PB.Base64.jsonDec [91, 49, 93] = .delegated := by decide
+/- the scenario of a container handed over after part of it was consumed: New("ab","cd","ef"); Get(3);
+   x.AppendContainer(it) must give "x" ++ "def" -/
+example : (wrun [] [.newc [[97, 98], [99, 100], [101, 102]], .newc [[120]], .on 0 (.get 3), .appendFrom 1 0,
+      .on 1 .getAll, .on 0 (.prepend [9]), .appendFrom 0 0, .on 0 .getAll, .on 7 .length]).2
+    = [.unit, .unit, .bytes [97, 98, 99], .unit, .bytes [120, 100, 101, 102], .unit, .unit,
+       .bytes [9, 100, 101, 102, 9, 100, 101, 102], .err "noslot"] := by decide
 
 end PB.C16
